@@ -3,7 +3,123 @@
 // natively, canary guards and whole-buffer diffs are checked. Every case uses an exact-size scratch window,
 // operands with spare capacity (size < max_size), 1..3 columns and N from 1 (coefficient ops) / 8 (DFT ops).
 
+/// Views carved out of scratch: a random sequence of public `take_*` calls on a window with an arbitrary start address. Every view
+/// must lie inside the window handed over, be disjoint from every other live view, and be aligned for its element type; each view
+/// is written and read back through its typed slice (under ASan / memcheck / Miri that access is what the tool observes).
+fn run_scratch_carving(cfg: &Cfg, rep: &mut Report) {
+    let mut rng = cfg.rng(&format!("c17-carve-{BE_NAME}"));
+    let slow = cfg!(debug_assertions) || cfg.mode == "slow";
+    let total = if slow { 40 } else { cfg.budget(20_000, 400_000) / 4 };
+    for _ in 0..total {
+        let off = if rng.coin() { rng.below(64) as usize } else { 8 * rng.below(8) as usize };
+        let len = 64 + rng.below(if slow { 2048 } else { 16384 }) as usize;
+        let mut g = Guarded::new(off + len, true);
+        g.fill_random(&mut rng);
+        let gref = g.raw_ref();
+        let base = g.bytes().as_ptr() as usize + off;
+        let end = base + len;
+        let desc = jo! {"backend" => BE_NAME, "op" => "scratch_carving", "window_offset_mod_64" => off, "window_len" => len};
+        let mut taken: Vec<(usize, usize, &'static str)> = Vec::new(); // (address, bytes, kind)
+        let mut bad: Option<String> = None;
+        let r = guarded(|| {
+            let win: &mut [u8] = &mut g.bytes_mut()[off..];
+            let mut sc: &mut Scratch<BE> = Scratch::<BE>::from_bytes(win);
+            for step in 0..12 {
+                let avail = sc.available();
+                if avail < 64 {
+                    break;
+                }
+                let want = 1 + rng.below((avail as u64 / 2).max(1)) as usize;
+                let kind = rng.below(6);
+                macro_rules! typed {
+                    ($t:ty, $name:expr) => {{
+                        let n = (want / std::mem::size_of::<$t>()).max(1);
+                        let (sl, rest) = sc.take_slice::<$t>(n);
+                        let addr = sl.as_ptr() as usize;
+                        if addr % std::mem::align_of::<$t>() != 0 {
+                            bad = Some(format!("step {step}: take_slice::<{}>({n}) returned address {addr:#x}, not aligned to {}", $name, std::mem::align_of::<$t>()));
+                        }
+                        for (i, x) in sl.iter_mut().enumerate() {
+                            *x = (i as u8).wrapping_mul(37).wrapping_add(step as u8) as $t;
+                        }
+                        taken.push((addr, n * std::mem::size_of::<$t>(), $name));
+                        sc = rest;
+                    }};
+                }
+                match kind {
+                    0 => typed!(u8, "u8"),
+                    1 => typed!(i64, "i64"),
+                    2 => typed!(f64, "f64"),
+                    3 => typed!(i128, "i128"),
+                    4 => {
+                        let n = 1usize << rng.below(4);
+                        let cols = 1 + rng.below(3) as usize;
+                        let size = (want / (8 * n * cols)).clamp(1, 8);
+                        if VecZnx::<Vec<u8>>::bytes_of(n, cols, size) > avail {
+                            continue;
+                        }
+                        let (mut v, rest) = sc.take_vec_znx(n, cols, size);
+                        let addr = v.at(0, 0).as_ptr() as usize;
+                        if addr % std::mem::align_of::<i64>() != 0 {
+                            bad = Some(format!("step {step}: take_vec_znx({n}, {cols}, {size}) returned address {addr:#x}, not aligned to 8"));
+                        }
+                        for j in 0..size {
+                            for c in 0..cols {
+                                v.at_mut(c, j).fill(step as i64 + 1);
+                            }
+                        }
+                        taken.push((addr, 8 * n * cols * size, "vec_znx"));
+                        sc = rest;
+                    }
+                    _ => {
+                        let (left, rest) = sc.split_at_mut(want.min(avail / 2).max(1));
+                        let (sl, _) = left.take_slice::<u8>(1);
+                        sl[0] = 0x5a;
+                        taken.push((sl.as_ptr() as usize, 1, "split_at_mut"));
+                        sc = rest;
+                    }
+                }
+                if bad.is_some() {
+                    break;
+                }
+            }
+        });
+        rep.case("scratch_carving", &format!("{BE_NAME}|{off}|{len}|{}", taken.len()), !taken.is_empty());
+        rep.count("scratch_views_carved", taken.len() as i128);
+        if off % 64 != 0 {
+            rep.count("carving_windows_unaligned", 1);
+        }
+        if let Err(p) = r {
+            if p.contains("out of range") || p.contains("out of bounds") || p.contains("misaligned") || p.contains("unaligned") {
+                rep.violate("scratch_carving", desc.clone(), format!("panic while carving / touching views: {p}"));
+            }
+            continue;
+        }
+        if bad.is_none() {
+            let mut sorted = taken.clone();
+            sorted.sort();
+            for (i, (a, b, k)) in sorted.iter().enumerate() {
+                if *a < base || a + b > end {
+                    bad = Some(format!("{k} view [{a:#x}, +{b}) lies outside the window [{base:#x}, {end:#x})"));
+                    break;
+                }
+                if i + 1 < sorted.len() && a + b > sorted[i + 1].0 {
+                    bad = Some(format!("{k} view [{a:#x}, +{b}) overlaps the {} view at {:#x}", sorted[i + 1].2, sorted[i + 1].0));
+                    break;
+                }
+            }
+        }
+        if bad.is_none() && !unsafe { gref.guards_intact() } {
+            bad = Some("canary guard around the window modified".into());
+        }
+        if let Some(b) = bad {
+            rep.violate("scratch_carving", desc, b);
+        }
+    }
+}
+
 pub fn run(cfg: &Cfg, rep: &mut Report) {
+    run_scratch_carving(cfg, rep);
     let mut rng = cfg.rng(&format!("c17-{BE_NAME}"));
     let slow = cfg!(debug_assertions) || cfg.mode == "slow";
     let total = cfg.budget(240_000, 12_000_000) / 4;
@@ -16,7 +132,12 @@ pub fn run(cfg: &Cfg, rep: &mut Report) {
         let seed = rng.next_u64();
         // the pairwise convolution query is a known finding of C12 (F23): give that op a generous window here
         let scratch = if op == "cnv_pairwise_apply_dft" { hal_ops::ScratchMode::Generous } else if slow && rng.coin() { hal_ops::ScratchMode::ExactUninit } else { hal_ops::ScratchMode::Exact };
-        let o = hal_ops::run_case(op, n, seed, &hal_ops::Opts { fill_seed: 0xc17, scratch, poison: true, fold: slow, ..Default::default() });
+        // one window in four is an arbitrary (not 64-byte aligned) user slice: the library has to re-align what it carves out of it
+        let misalign = if rng.below(4) == 0 { [1usize, 8, 16, 24, 32, 40, 56, 63][rng.below(8) as usize] } else { 0 };
+        if misalign != 0 {
+            rep.count("misaligned_scratch_windows", 1);
+        }
+        let o = hal_ops::run_case(op, n, seed, &hal_ops::Opts { fill_seed: 0xc17, scratch, poison: true, fold: slow, misalign, ..Default::default() });
         if o.key.is_empty() {
             continue;
         }
